@@ -7,6 +7,7 @@ are value-wise (no string disequalities needed): `init_state` returns exactly th
 `x₀…`, and any state map holding these values is mapped by `update_states` to the same list.
 -/
 import JaxleyVerif.Props.C03
+import JaxleyVerif.Lemmas.InitStates
 
 namespace JaxleyVerif.Props.C14
 open JaxleyVerif JaxleyVerif.Gen JaxleyVerif.Spec JaxleyVerif.Props.C03
@@ -105,5 +106,105 @@ example : ∃ m0 h0 n0, HH.init_state "HH" (fun _ => (0:ℝ)) (-70) (fun _ => 0)
   let ⟨m0, h0, n0, e, _⟩ := HH_init_fixed "HH" (fun _ => (0:ℝ)) (fun _ => 0) (dt := 0.025) (dt0 := 0.025) (v := -70)
     (by norm_num) (by norm_num) (by norm_num)
   ⟨m0, h0, n0, e⟩
+
+
+/-! ## `Module.init_states` (model: `Model/InitStates.lean`)
+
+The per-channel theorems above are lifted to the module: every channel reads the snapshot of the row taken before the call, writes
+only the keys it returns, only in rows where it is inserted. -/
+
+section module
+open JaxleyVerif.Model.InitStates
+
+/-- the built-in channels as `Chan ℝ` values: their `init_state` is the GENERATED kernel -/
+noncomputable def chanHH (pfx : String) : Chan ℝ := ⟨pfx, fun st v pr dt => HH.init_state pfx st v pr dt⟩
+noncomputable def chanNa (pfx : String) : Chan ℝ := ⟨pfx, fun st v pr dt => Na.init_state pfx st v pr dt⟩
+noncomputable def chanK (pfx : String) : Chan ℝ := ⟨pfx, fun st v pr dt => K.init_state pfx st v pr dt⟩
+noncomputable def chanKm (pfx : String) : Chan ℝ := ⟨pfx, fun st v pr dt => Km.init_state pfx st v pr dt⟩
+noncomputable def chanCaL (pfx : String) : Chan ℝ := ⟨pfx, fun st v pr dt => CaL.init_state pfx st v pr dt⟩
+noncomputable def chanCaT (pfx : String) : Chan ℝ := ⟨pfx, fun st v pr dt => CaT.init_state pfx st v pr dt⟩
+noncomputable def chanLeak (pfx : String) : Chan ℝ := ⟨pfx, fun st v pr dt => Leak.init_state st v pr dt⟩
+
+/-- no built-in `init_state` reads the states it is given: it is a function of voltage and parameters only -/
+theorem builtin_init_reads_no_state (pfx : String) (s s' : String → ℝ) (v : ℝ) (p : String → ℝ) (dt : ℝ) :
+    (chanHH pfx).init s v p dt = (chanHH pfx).init s' v p dt ∧ (chanNa pfx).init s v p dt = (chanNa pfx).init s' v p dt ∧
+    (chanK pfx).init s v p dt = (chanK pfx).init s' v p dt ∧ (chanKm pfx).init s v p dt = (chanKm pfx).init s' v p dt ∧
+    (chanCaL pfx).init s v p dt = (chanCaL pfx).init s' v p dt ∧ (chanCaT pfx).init s v p dt = (chanCaT pfx).init s' v p dt ∧
+    (chanLeak pfx).init s v p dt = (chanLeak pfx).init s' v p dt :=
+  ⟨rfl, rfl, rfl, rfl, rfl, rfl, rfl⟩
+
+/-- hence `init_states` is idempotent on every module made of built-in channels (any names, any insertion order, any membership) -/
+theorem module_init_states_idempotent (chans : List (Chan ℝ)) (has : String → Bool) (dt : ℝ) (r : Row ℝ)
+    (hb : ∀ c ∈ chans, ∃ pfx, c = chanHH pfx ∨ c = chanNa pfx ∨ c = chanK pfx ∨ c = chanKm pfx ∨ c = chanCaL pfx ∨
+        c = chanCaT pfx ∨ c = chanLeak pfx) :
+    initRow chans has dt (initRow chans has dt r) = initRow chans has dt r := by
+  apply initRow_idem
+  intro c hc s s' v p
+  obtain ⟨pfx, h⟩ := hb c hc
+  rcases h with h | h | h | h | h | h | h <;> subst h <;> rfl
+
+/-- rows without any channel, voltages and parameters are not written -/
+theorem module_init_states_frame (chans : List (Chan ℝ)) (has : String → Bool) (dt : ℝ) (r : Row ℝ) :
+    (initRow chans has dt r).v = r.v ∧ (initRow chans has dt r).params = r.params ∧
+    ((∀ c ∈ chans, has c.name = false) → (initRow chans has dt r).states = r.states) ∧
+    (∀ k, (∀ c ∈ chans, has c.name = true → k ∉ keysOf (c.init r.states r.v r.params dt)) →
+        (initRow chans has dt r).states k = r.states k) :=
+  ⟨rfl, rfl, initRow_no_channel chans has dt r, fun k h => initRowFrom_frame chans has dt r r.states k h⟩
+
+theorem str_ne {p a b : String} (h : a ≠ b) : p ++ a ≠ p ++ b := fun e => h ((String.append_right_inj p).mp e)
+
+/-- **HH after `init_states` is at its steady state**: in a row where an HH channel (any name `pfx`) is inserted and no other
+inserted channel writes `pfx_m/_h/_n`, one `update_states` at the row's voltage returns exactly the values `init_states` wrote,
+for every `dt > 0` (away from the removable singularities of the rate functions, known finding F4b) -/
+theorem module_init_states_HH_steady (chans : List (Chan ℝ)) (has : String → Bool) (dt0 dt : ℝ) (r : Row ℝ) (pfx : String)
+    (hc : chanHH pfx ∈ chans) (hhas : has pfx = true)
+    (hother : ∀ c' ∈ chans, c' ≠ chanHH pfx → has c'.name = true → ∀ k ∈ [pfx ++ "_m", pfx ++ "_h", pfx ++ "_n"],
+        k ∉ keysOf (c'.init r.states r.v r.params dt0))
+    (hdt : 0 < dt) (hm : r.v ≠ -40) (hn : r.v ≠ -55) :
+    let r' := initRow chans has dt0 r
+    HH.update_states pfx r'.states dt r'.v r'.params
+      = [(pfx ++ "_m", r'.states (pfx ++ "_m")), (pfx ++ "_h", r'.states (pfx ++ "_h")), (pfx ++ "_n", r'.states (pfx ++ "_n"))] := by
+  intro r'
+  obtain ⟨m0, h0, n0, e, hfix⟩ := HH_init_fixed pfx r.states r.params (dt := dt) (dt0 := dt0) (v := r.v) hdt hm hn
+  have hnd : (keysOf ((chanHH pfx).init r.states r.v r.params dt0)).Nodup := by
+    show (keysOf (HH.init_state pfx r.states r.v r.params dt0)).Nodup
+    rw [e]
+    have h1 : pfx ++ "_m" ≠ pfx ++ "_h" := str_ne (by decide)
+    have h2 : pfx ++ "_m" ≠ pfx ++ "_n" := str_ne (by decide)
+    have h3 : pfx ++ "_h" ≠ pfx ++ "_n" := str_ne (by decide)
+    simp [keysOf, h1, h2, h3]
+  have get : ∀ k x, (k, x) ∈ [(pfx ++ "_m", m0), (pfx ++ "_h", h0), (pfx ++ "_n", n0)] → r'.states k = x := by
+    intro k x hkx
+    refine initRowFrom_member chans has dt0 r r.states (chanHH pfx) hc hhas k x ?_ hnd ?_
+    · show (k, x) ∈ HH.init_state pfx r.states r.v r.params dt0
+      rw [e]; exact hkx
+    · intro c' hc' hne hh'
+      refine hother c' hc' hne hh' k ?_
+      simp only [List.mem_cons, Prod.mk.injEq, List.not_mem_nil, or_false] at hkx ⊢
+      rcases hkx with h | h | h
+      · exact Or.inl h.1
+      · exact Or.inr (Or.inl h.1)
+      · exact Or.inr (Or.inr h.1)
+  have em := get _ _ (List.mem_cons_self)
+  have eh := get (pfx ++ "_h") h0 (by simp)
+  have en := get (pfx ++ "_n") n0 (by simp)
+  rw [em, eh, en]
+  exact hfix r'.states em eh en
+
+/-- non-vacuity: a row with HH and Leak inserted (default names) -/
+example : let r : Row ℝ := ⟨-70, fun _ => 0, fun _ => 0⟩
+    let r' := initRow [chanHH "HH", chanLeak "Leak"] (fun _ => true) 0.025 r
+    HH.update_states "HH" r'.states 0.025 r'.v r'.params
+      = [("HH_m", r'.states "HH_m"), ("HH_h", r'.states "HH_h"), ("HH_n", r'.states "HH_n")] := by
+  intro r r'
+  refine module_init_states_HH_steady [chanHH "HH", chanLeak "Leak"] (fun _ => true) 0.025 0.025 r "HH"
+    List.mem_cons_self rfl ?_ (by norm_num) (by norm_num) (by norm_num)
+  intro c' hc' hne _ k _
+  simp only [List.mem_cons, List.not_mem_nil, or_false] at hc'
+  rcases hc' with h | h
+  · exact absurd h hne
+  · subst h; simp [chanLeak, keysOf, Leak_init]
+
+end module
 
 end JaxleyVerif.Props.C14
